@@ -87,9 +87,9 @@ func (s *p3stats) verdict(k string) {
 }
 
 // direct asks VerifyCommit itself, under the set in force, about the commit a call site mis-judged: if it gives the
-// same wrong verdict the root cause is VerifyCommit (part 1's site), otherwise the call site.
-func direct(set *types.ValidatorSet, claimed int, pre []*types.Vote) (accepts bool) {
-	vk.Catch(func() {
+// same wrong verdict (or panics as well) the root cause is VerifyCommit (part 1's site), otherwise the call site.
+func direct(set *types.ValidatorSet, claimed int, pre []*types.Vote) (accepts, panicked bool) {
+	panicked, _ = vk.Catch(func() {
 		accepts = set.VerifyCommit(chainID, blockIDs[claimed], H, &types.Commit{BlockID: blockIDs[claimed], Precommits: pre}) == nil
 	})
 	return
@@ -109,9 +109,13 @@ func runValidateBlock(rp *reporter, st *p3stats, w *world, nv int) {
 		if slotVariants[2].name != "A" {
 			vk.Fatalf("slot alphabet order changed")
 		}
-		if err := exec.ValidateBlock(status, height2Block(status, &types.Commit{BlockID: blockIDs[idA], Precommits: pre})); err != nil && !contains(err.Error(), "Invalid commit") {
-			// a complaint about the commit itself is the enumeration's business (reported below as a violation);
-			// any other complaint means the harness built a block that fails a clause it was meant to satisfy
+		var err error
+		panicked, _ := vk.Catch(func() {
+			err = exec.ValidateBlock(status, height2Block(status, &types.Commit{BlockID: blockIDs[idA], Precommits: pre}))
+		})
+		if !panicked && err != nil && !contains(err.Error(), "Invalid commit") {
+			// a complaint about the commit itself, or a panic, is the enumeration's business (reported below as a
+			// violation); any other complaint means the harness built a block that fails a clause it was meant to satisfy
 			vk.Fatalf("ValidateBlock rejects the harness's height-2 block for a reason other than its LastCommit (%s): %v", w, err)
 		}
 	}
@@ -145,9 +149,15 @@ func runValidateBlock(rp *reporter, st *p3stats, w *world, nv int) {
 					var err error
 					if p, pv := vk.Catch(func() { err = exec.ValidateBlock(status, block) }); p {
 						err = fmt.Errorf("panic: %v", pv)
-						if atomic.AddInt64(&st.panics, 1) <= 3 {
-							r.Note("ValidateBlock panicked: %v on %v", pv, describe(w, tab, asg, claimed))
+						atomic.AddInt64(&st.panics, 1)
+						site := "validateblock"
+						if _, dp := direct(w.valSet(), claimed, pre); dp {
+							site = "verifycommit"
 						}
+						m := describe(w, tab, asg, claimed)
+						m["commit_block_id_field"] = idName[field]
+						m["site"] = "BlockExecutor.ValidateBlock(height-2 block)"
+						r.Violation(panicKey(site), fmt.Sprintf("ValidateBlock panics (%v) instead of accepting or rejecting the block's LastCommit", pv), m)
 					}
 					ref := w.refCommit(slots, claimed, H, 0, relax{})
 					atomic.AddInt64(&st.cases, 1)
@@ -165,15 +175,15 @@ func runValidateBlock(rp *reporter, st *p3stats, w *world, nv int) {
 						atomic.AddInt64(&st.accepted, 1)
 						if !ref {
 							site := "validateblock"
-							if direct(w.valSet(), claimed, pre) {
+							if acc, _ := direct(w.valSet(), claimed, pre); acc {
 								site = "verifycommit"
 							}
 							rp.accepts(site, w, append([]*vdesc{}, slots...), claimed, 0,
 								fmt.Sprintf("ValidateBlock accepts a block whose LastCommit does not hold correctly signed precommits of more than 2/3 of LastValidators for the previous block id %s", idName[claimed]), d())
 						}
-					} else if clean && ref {
+					} else if clean && ref && errClass(err) != "panic" {
 						key := "validateblock:rejects-valid-lastcommit"
-						if !direct(w.valSet(), claimed, pre) {
+						if acc, _ := direct(w.valSet(), claimed, pre); !acc {
 							key = "verifycommit:rejects-valid-commit"
 						}
 						r.Violation(key, fmt.Sprintf("ValidateBlock rejects (%v) a block whose LastCommit is a valid commit for the previous block id", err), d())
@@ -376,7 +386,7 @@ func runFastSync(rp *reporter, st *p3stats, w *world, nv int, scs []fsScenario) 
 					}
 					if !ref {
 						site := "fastsync"
-						if direct(refW.valSetFrom(sc.refOff), sc.claimed, pre) {
+						if acc, _ := direct(refW.valSetFrom(sc.refOff), sc.claimed, pre); acc {
 							site = "verifycommit"
 						}
 						rp.accepts(site, refW, slots, sc.claimed, sc.refOff,
@@ -386,13 +396,30 @@ func runFastSync(rp *reporter, st *p3stats, w *world, nv int, scs []fsScenario) 
 					st.verdict("fastsync:" + sc.name + ":reject")
 					if ref && refW.clean(slots, H, sc.refOff) {
 						key := "fastsync:rejects-valid-commit"
-						if !direct(refW.valSetFrom(sc.refOff), sc.claimed, pre) {
+						if acc, _ := direct(refW.valSetFrom(sc.refOff), sc.claimed, pre); !acc {
 							key = "verifycommit:rejects-valid-commit"
 						}
 						r.Violation(key, "fast sync rejects a pair of blocks whose commit is valid for the first block", d())
 					}
+				case nil:
+					// poolRoutine returned: it has no exit on the accept/reject paths of an injected pair
+					st.verdict("fastsync:" + sc.name + ":loop-ended")
+					r.Violation("fastsync:loop-ended-without-verdict:"+sc.name, "the fast-sync loop returned without committing or rejecting the injected pair of blocks", d())
 				default:
-					vk.Fatalf("fast-sync driver: poolRoutine ended with %v (scenario %s)", stopped, sc.name)
+					// anything else is a panic of the code under test while it judged the pair (in production it kills
+					// the node): an observation of this scenario, never a harness fault — the reference has a verdict
+					// for every enumerated commit
+					atomic.AddInt64(&st.panics, 1)
+					st.verdict("fastsync:" + sc.name + ":panic")
+					key := panicKey("fastsync") + ":" + sc.name
+					if _, dp := direct(refW.valSetFrom(sc.refOff), sc.claimed, pre); dp {
+						key = panicKey("verifycommit")
+					}
+					verdict := "rejected"
+					if ref {
+						verdict = "accepted"
+					}
+					r.Violation(key, fmt.Sprintf("the fast-sync loop panics (%v) on a pair of blocks whose commit must be %s", s, verdict), d())
 				}
 				if asks := atomic.LoadInt32(&app.recoverAsks); (asks > 0) != (sc.first == fsFR) {
 					st.verdict(fmt.Sprintf("fastsync:recover-set-asked-%d-times-for-%s", asks, sc.name))
